@@ -156,6 +156,8 @@ class Driver:
                     hs, ns = [h, U], [op[1], 1]
                 elif shape == 'after_sco_like':  # a handle that is no ACL connection and zero packets
                     hs, ns = [0x0EED, h], [0, op[1]]
+                elif shape == 'duplicate_entries':  # the same handle listed twice in one event (1 + the rest)
+                    hs, ns = [h, h], [1, op[1] - 1]
                 ev = self.hci.HCI_Number_Of_Completed_Packets_Event(connection_handles=hs, num_completed_packets=ns)
                 self.host.on_packet(bytes(ev))
             else:
@@ -226,6 +228,9 @@ class Driver:
         for h, t in self.drains:
             if t.done() and m.busy(h):
                 self.early_drain += 1
+            if t.done() and not t.cancelled() and t.exception() is not None and not isinstance(t.exception(), (ValueError, KeyError)):
+                # (ValueError / KeyError: the documented answer for a connection the queue has never seen)
+                return ('drain_raised', f'drain({h:#x}) ended with {type(t.exception()).__name__}: {t.exception()}')
         return None
 
     def close(self):
@@ -287,6 +292,8 @@ def ops_for(drv, handles):
             if f:
                 for shape in ('after_unknown', 'before_unknown', 'after_sco_like'):
                     out.append(('done', 1, h, shape))
+            if f >= 2:
+                out.append(('done', 2, h, 'duplicate_entries'))
     for h in handles:
         out.append(('flush', h))
     if drv.via_host:
